@@ -45,11 +45,9 @@ def main() -> int:
         print(f"VIOLATION property={a.pid} replay={path} no-failing-input-found", flush=True)
         os._exit(1)
 
-    import threading
-
-    t = threading.Timer(limit, _stuck)
-    t.daemon = True
-    t.start()
+    # SIGALRM, not a timer thread: the checks of the calibrator family count the threads alive after a calibration
+    signal.signal(signal.SIGALRM, lambda *_: _stuck())
+    signal.alarm(int(limit))
     try:
         return mod.run(chk, replay=a.replay)
     except Exception:  # noqa: BLE001
